@@ -24,7 +24,7 @@ MODULES = ["file_accessor", "sharded_file_accessor", "http_accessor", "sharded_h
 FUNCTIONS = ["file_accessor.FileAccessor.store_file/store_chunk/fetch_file/fetch_chunk/file_exists",
              "sharded_file_accessor.ShardedFileAccessor.store_chunk/close/fetch_chunk, Shard.close, MiniShard.*",
              "precomputed_io.PrecomputedIO.read_chunk + decoders on leftover partial files",
-             "http accessors under request faults (see C14)"]
+             "http_accessor.HttpAccessor.fetch_file/fetch_chunk/file_exists and sharded_http_accessor.ShardedHttpAccessor.fetch_chunk under request faults"]
 STUBS = ["model file system with a fault plan: call #n of the operation fails with errno e / the process is interrupted before "
          "call #n, after which any prefix of what open writers had written survives (symbolic prefix length)",
          "gzip image model: an unfinished image raises EOFError when read (as the real module does for a truncated stream)"]
@@ -41,13 +41,26 @@ BOUNDS = {"quick": "datasets with 2 chunks stored + 1 operation (store_chunk, st
                    "existing chunk) and of Shard.close, every surviving prefix length",
           "thorough": "more layouts, 2-chunk sharded closes"}
 OUTSIDE = ["real kernel behaviour (partial write(2), fsync ordering, torn sectors beyond prefix truncation)", "JPEG",
-           "HTTP faults are decided in C14 (same fault model)"]
+           "HTTP faults other than one / all later requests answered 404, 403, 500, 503 or a reset connection"]
 
 ERRNOS = [errno.ENOSPC, errno.EACCES, errno.EIO, errno.ENOENT]
 # errors with which a probing stat() says "there is no such file" (pathlib treats exactly these as a negative answer)
 NO_SUCH_FILE = (errno.ENOENT, errno.ENOTDIR, errno.EBADF, errno.ELOOP)
 MORE_ERRNOS = [errno.EDQUOT, errno.EROFS, errno.EMFILE, errno.ENAMETOOLONG, errno.ENOTDIR, errno.EFBIG]      # thorough tier
 CH = [(0, 2, 0, 2, 0, 1), (2, 4, 0, 2, 0, 1), (0, 2, 2, 3, 0, 1)]
+
+
+_HTTP = {"plain_fault": "http_fault", "sharded_fault": "http_sharded_fault"}
+
+
+def H_http_fault(ctx, cfg):
+    from . import c14
+    return c14.H_plain_fault(ctx, cfg)
+
+
+def H_http_sharded_fault(ctx, cfg):
+    from . import c14
+    return c14.H_sharded_fault(ctx, cfg)
 
 
 def configs(tier, seed):
@@ -71,6 +84,12 @@ def configs(tier, seed):
             for over in (False, True):
                 out.append(dict(harness="crash_file", enc=enc, gzip=gz, over=over, cost=4, wall=900, max_paths=20000))
     out.append(dict(harness="crash_sharded", cost=10, wall=1500, max_paths=40000))
+    # network failures of the HTTP accessors: the request-fault harnesses of C14 (same model server, same fault plan:
+    # one or all later requests answered 404/403/500/503 or with a reset connection), decided here for this property too
+    from . import c14
+    for c in c14.configs(tier, seed):
+        if c["harness"] in _HTTP:
+            out.append(dict(c, harness=_HTTP[c["harness"]]))
     return out
 
 
@@ -412,6 +431,9 @@ def replay(cfg, cex):
     import tempfile
     h = cfg["harness"]
     inp = cex["inputs"]
+    if h in _HTTP.values():
+        from . import c14
+        return c14.replay(dict(cfg, harness={v: k for k, v in _HTTP.items()}[h]), cex)
     acc_mod = load.mod("accessor")
     fa = load.mod("file_accessor")
     if h == "fault_file":
